@@ -114,13 +114,14 @@ pub fn rerun(path: &str, dbg: bool, out: &str) {
             "hash" => {
                 let pre = observe(x);
                 let mut xc = x.clone();
-                let stream = match exec(&mut xc, &Y::None, "hash", "", &Args::default()) {
+                let hop = if ev["op"] == "hash_slice" { "hash_slice" } else { "hash" };
+                let stream = match exec(&mut xc, &Y::None, hop, "", &Args::default()) {
                     Out::Bytes(s) => s,
                     _ => vec![0xEE],
                 };
                 let next = ids.len() as u64 + 1;
                 let id = *ids.entry(stream).or_insert(next);
-                let mut e2 = json!({"op": "hash", "f": "", "r": ev["r"], "nb": 1, "cf": "hash", "dbg": dbg as u8, "x": xdesc(x, &pre, ev["x"]["p"].as_str().unwrap_or("fresh")),
+                let mut e2 = json!({"op": hop, "f": "", "r": ev["r"], "nb": 1, "cf": "hash", "dbg": dbg as u8, "x": xdesc(x, &pre, ev["x"]["p"].as_str().unwrap_or("fresh")),
                     "y": ydesc_none(), "a": {}, "px": pdesc(&observe(&xc)), "py": [], "o": Out::Unit.to_json()});
                 e2["h"] = json!(id);
                 outv.push(e2);
